@@ -91,10 +91,46 @@ func c41Pad32(v *big.Int) []byte {
 	return out
 }
 
-// key pair of the code under test for a chosen scalar.
-func c41KeyPair(d *big.Int) *KeyPair {
-	priv := UnmarshalPrivateKey(c41Pad32(d))
-	return &KeyPair{PrivateKey: priv, PublicKey: (*PublicKey)(&priv.PublicKey)}
+// c41GenEncoding renders the scalar d (1 <= d < n) as the bytes of a revealed
+// private key. A private key arrives as a big-endian byte string of whatever
+// length the revealing peer chose (pkg/beacon/gjkr/marshaling.go hands the wire
+// bytes to UnmarshalPrivateKey unchanged): the fixed 32-byte form this package
+// emits, the minimal form without leading zero bytes, a zero-extended form, or
+// a longer number congruent to d modulo the group order. All of them stand for
+// the same scalar.
+func c41GenEncoding(t *rapid.T, label string, d *big.Int) ([]byte, string) {
+	switch rapid.IntRange(0, 6).Draw(t, label+"Encoding") {
+	case 0, 1, 2:
+		return c41Pad32(d), "fixed32"
+	case 3, 4:
+		return d.Bytes(), "minimal"
+	case 5:
+		pad := rapid.IntRange(1, 8).Draw(t, label+"ZeroExtension")
+		return append(make([]byte, pad), c41Pad32(d)...), "zero-extended"
+	default:
+		k := new(big.Int).SetBytes(rapid.SliceOfN(rapid.Byte(), 1, 4).Draw(t, label+"MultipleOfN"))
+		k.Add(k, big.NewInt(1))
+		v := new(big.Int).Add(d, new(big.Int).Mul(k, c41N))
+		if v.BitLen() <= 256 {
+			v.Add(v, new(big.Int).Lsh(c41N, 8))
+		}
+		return v.Bytes(), "plus-multiple-of-n"
+	}
+}
+
+// the public key d*G, computed by the curve library from the canonical scalar
+// (not by the code under test from the revealed bytes): what the owner of the
+// key announced.
+func c41PublicOf(d *big.Int) *PublicKey {
+	x, y := btcec.S256().ScalarBaseMult(c41Pad32(d))
+	return &PublicKey{Curve: btcec.S256(), X: x, Y: y}
+}
+
+// key pair for a chosen scalar: the private half through UnmarshalPrivateKey
+// from a drawn encoding, the public half independently.
+func c41KeyPair(t *rapid.T, label string, d *big.Int) (*KeyPair, string) {
+	raw, enc := c41GenEncoding(t, label, d)
+	return &KeyPair{PrivateKey: UnmarshalPrivateKey(raw), PublicKey: c41PublicOf(d)}, enc
 }
 
 func c41GenPlaintext(t *rapid.T) []byte {
@@ -139,7 +175,8 @@ func TestVerif_C41_Channel(t *testing.T) {
 		da := c41GenScalar(t, "a")
 		db := c41GenScalar(t, "b")
 		sameKeys := da.Cmp(db) == 0
-		a, b := c41KeyPair(da), c41KeyPair(db)
+		a, encA := c41KeyPair(t, "a", da)
+		b, encB := c41KeyPair(t, "b", db)
 		// the public keys travel marshalled in the real protocols
 		viaWire := rapid.Bool().Draw(t, "publicKeysViaWire")
 		pubA, pubB := a.PublicKey, b.PublicKey
@@ -172,7 +209,7 @@ func TestVerif_C41_Channel(t *testing.T) {
 		if dc.Cmp(c41N) >= 0 || dc.Sign() == 0 {
 			dc = big.NewInt(7)
 		}
-		c := c41KeyPair(dc)
+		c, _ := c41KeyPair(t, "c", dc)
 
 		keyAB := a.PrivateKey.Ecdh(pubB) // a's view
 		keyBA := b.PrivateKey.Ecdh(pubA) // b's view
@@ -323,7 +360,9 @@ func TestVerif_C41_Channel(t *testing.T) {
 		}
 
 		nt := !sameKeys && thirdDistinct
-		st.Case(nt, fmt.Sprintf("a=%x b=%x c=%x wire=%v a->b=%v pt=%s mods=%v", da, db, dc, viaWire, aToB, c41Short(plaintext), modDescs),
+		st.Label("enc:" + encA)
+		st.Label("enc:" + encB)
+		st.Case(nt, fmt.Sprintf("a=%x(%s) b=%x(%s) c=%x wire=%v a->b=%v pt=%s mods=%v", da, encA, db, encB, dc, viaWire, aToB, c41Short(plaintext), modDescs),
 			fmt.Sprintf("pt:%s", c41LenClass(len(plaintext))), fmt.Sprintf("wire:%v", viaWire), fmt.Sprintf("third-distinct:%v", thirdDistinct),
 			fmt.Sprintf("same-scalars:%v", sameKeys))
 	})
@@ -361,7 +400,7 @@ func TestVerif_C41_KeyMatching(t *testing.T) {
 	defer st.Flush()
 	rapid.Check(t, func(t *rapid.T) {
 		e := c41GenScalar(t, "pub")
-		pub := c41KeyPair(e).PublicKey
+		pub := c41PublicOf(e)
 		viaWire := rapid.Bool().Draw(t, "viaWire")
 		if viaWire {
 			var err error
@@ -393,8 +432,21 @@ func TestVerif_C41_KeyMatching(t *testing.T) {
 		if d.Sign() <= 0 || d.Cmp(c41N) >= 0 {
 			d, class = big.NewInt(3), "other"
 		}
+		raw, enc := c41GenEncoding(t, "priv", d)
+		if rapid.IntRange(0, 7).Draw(t, "trailingBytes") == 0 {
+			// the key followed by more bytes is another, larger number; like every
+			// over-long number it stands for its residue modulo the group order
+			raw = append(append([]byte{}, raw...), rapid.SliceOfN(rapid.Byte(), 1, 3).Draw(t, "trailing")...)
+			d = new(big.Int).Mod(new(big.Int).SetBytes(raw), c41N)
+			if d.Sign() == 0 {
+				raw, d = c41Pad32(big.NewInt(3)), big.NewInt(3)
+			}
+			class, enc = "with-trailing-bytes", "longer-number"
+		}
+		classLabel, encLabel := "priv:"+class, "enc:"+enc
+		class += "/" + enc
 		expected := d.Cmp(e) == 0
-		priv := UnmarshalPrivateKey(c41Pad32(d))
+		priv := UnmarshalPrivateKey(raw)
 		if rapid.Bool().Draw(t, "privViaWire") {
 			priv = UnmarshalPrivateKey(priv.Marshal())
 		}
@@ -410,7 +462,7 @@ func TestVerif_C41_KeyMatching(t *testing.T) {
 			t.Fatalf("IsKeyMatching = %v, expected %v: public key of scalar %x, revealed private key %x (%s)", got, expected, e, d, class)
 		}
 		// metamorphic: the key pair the private key generates always matches
-		if own := c41KeyPair(d); !own.PublicKey.IsKeyMatching(priv) {
+		if !c41PublicOf(d).IsKeyMatching(priv) {
 			t.Fatalf("private key %x does not match the public key it generates", d)
 		}
 		// the "negated" public key (X, p-Y) is a different valid key: the
@@ -420,7 +472,7 @@ func TestVerif_C41_KeyMatching(t *testing.T) {
 		if gotNeg := negPub.IsKeyMatching(priv); gotNeg != wantNeg {
 			t.Fatalf("IsKeyMatching on the mirrored public key (same X, other Y) = %v, expected %v: scalar %x, private key %x", gotNeg, wantNeg, e, d)
 		}
-		st.Case(!expected, fmt.Sprintf("pub=%x priv=%x %s wire=%v -> %v", e, d, class, viaWire, got), "priv:"+class, fmt.Sprintf("match:%v", got))
+		st.Case(!expected, fmt.Sprintf("pub=%x priv=%x %s wire=%v -> %v", e, d, class, viaWire, got), classLabel, encLabel, fmt.Sprintf("match:%v", got))
 	})
 }
 
